@@ -102,25 +102,35 @@ CHECKS = {
     "C12": dict(
         category="model_checking",
         technique="Kill/Resume actions of NestedSampler.tla model checked by TLC; real kill/resume histories (os._exit at "
-                  "chosen likelihood calls, fresh process per resume) validated by TLC against TraceNestedSampler.tla",
+                  "chosen likelihood calls, fresh process per resume) of both samplers validated by TLC against "
+                  "TraceNestedSampler.tla / TraceImportanceSampler.tla; Schedule.tla (when a checkpoint call writes) "
+                  "model checked and evaluated on every real checkpoint() call",
         text="TLC explores every placement of a kill and resume in the bounded model; real histories with 1-4 kills are "
              "traced across processes: at each resume the deep digest of the restored sampler must equal the digest at "
              "the checkpoint, the evaluation counter and the sampling time must continue cumulatively, and the "
              "completed run must satisfy the C01/C05 clauses.",
         design_ref="DESIGN.md 4 C12",
         note=NS_NOTE + " Sampling time is checked against the wall clock with a 1 s tolerance (downtime between "
-             "processes is several seconds). Standard sampler here; INS resume is in the C03 corpus.",
+             "processes is several seconds). Both samplers (INS histories with 1-3 kills, with and without saved "
+             "density tables). Further clauses: a later process never starts afresh while a checkpoint exists; the "
+             "restored proposal pool is usable exactly if it was when the checkpoint was written (targeted history: "
+             "checkpoint_on_training after a retraining with samples left in the pool).",
     ),
     "C15": dict(
         category="model_checking",
         technique="loop-control actions of NestedSampler.tla (StopRule, Idempotent) model checked by TLC; per-iteration "
-                  "condition values, run-again and resume-after-finish histories of real runs validated by TLC",
+                  "condition values, run-again and resume-after-finish histories of real runs validated by TLC; "
+                  "spec->code replay: behaviours of SimNestedSampler.tla (tlc -simulate) and every behaviour of the "
+                  "stopping rule of SimImportanceSampler.tla are scripted through the real samplers, which must stop "
+                  "where the specification stops",
         text="TLC checks that the loop body is entered only while the condition holds and that a finalised run is "
              "unchanged by run-again/resume; in real runs every iteration event requires the previous condition to "
              "exceed the tolerance, finalise requires it not to, the history must report the compared values, and "
              "run()-again / resume from the final checkpoint must return the same digest and evaluation count.",
         design_ref="DESIGN.md 4 C15",
-        note=NS_NOTE + " Known finding cap_stopped_rerun (known_findings.json). INS criteria are covered in the C03 corpus.",
+        note=NS_NOTE + " Known finding cap_stopped_rerun (known_findings.json). The importance sampler's criteria "
+             "(values = standard definitions, pairing with the user's tolerances, any/all, min/max iteration) are "
+             "checked on its own corpus and by the scripted replays.",
     ),
     "C02": dict(
         category="model_checking",
@@ -186,7 +196,9 @@ CHECKS = {
         technique="Signal action of NestedSampler.tla model checked by TLC (safe at boundaries, unsafe inside the critical "
                   "section as the code allows); a real handler call is injected before every distinct source line of "
                   "an iteration and of finalise (sys.settrace), the run is resumed and the whole history validated by "
-                  "TLC against TraceNestedSampler.tla",
+                  "TLC against TraceNestedSampler.tla; importance sampler: handler injected before/after each of the 13 "
+                  "per-iteration steps; with a multiprocessing pool (n_pool=2) the pool operations are validated "
+                  "against PoolLife.tla",
         text="TLC classifies every program counter of the iteration as safe/unsafe for a signal followed by a resume; "
              "the harness enumerates the source lines actually executed in a flow-phase iteration (training and a "
              "population inside) and in finalise, and for each runs the real history: handler (SIGTERM/SIGINT/SIGALRM, "
